@@ -116,6 +116,11 @@ Inductive hop :=
 | HijackNoResp (b : bool)       (* ctx.HijackSetNoResponse(b) *)
 | TimeoutOp                     (* ctx.TimeoutError(...): the response is replaced by the timeout response *)
 | SkipBodyOp                    (* ctx.Response.SkipBody = true *)
+| ResetConnClose                (* ctx.Response.Header.ResetConnectionClose() *)
+| DelHdrConn                    (* ctx.Response.Header.Del("Connection") *)
+| RespReset (c : Z)             (* ctx.Error(msg, c) / ctx.Response.Reset() + SetStatusCode(c): a fresh response *)
+| ReqSetConnClose               (* ctx.Request.Header.SetConnectionClose(): too late, the request's wish was stored before *)
+| TimeoutRespClose              (* ctx.TimeoutErrorWithResponse(r) with r.SetConnectionClose() *)
 | OtherOp.                      (* anything that does not touch the above (body, other headers, ...) *)
 
 Record env := {
@@ -153,19 +158,24 @@ Inductive event :=
 
 (* ---------- the handler's effect on ctx ---------- *)
 Record hstate := {
-  h_status : Z; h_rh : rhdr; h_hijack : bool; h_noresp : bool; h_timeout : bool; h_skip : bool }.
+  h_status : Z; h_rh : rhdr; h_hijack : bool; h_noresp : bool; h_timeout : bool; h_skip : bool; h_tclose : bool }.
 Definition hstate_init : hstate :=
-  {| h_status := StatusOK; h_rh := rhdr_init; h_hijack := false; h_noresp := false; h_timeout := false; h_skip := false |}.
+  {| h_status := StatusOK; h_rh := rhdr_init; h_hijack := false; h_noresp := false; h_timeout := false; h_skip := false; h_tclose := false |}.
 
 Definition apply_hop (h : hstate) (o : hop) : hstate :=
   match o with
-  | SetStatus c => {| h_status := c; h_rh := h_rh h; h_hijack := h_hijack h; h_noresp := h_noresp h; h_timeout := h_timeout h; h_skip := h_skip h |}
-  | SetConnClose => {| h_status := h_status h; h_rh := rhdr_set_close (h_rh h); h_hijack := h_hijack h; h_noresp := h_noresp h; h_timeout := h_timeout h; h_skip := h_skip h |}
-  | SetHdrConn v => {| h_status := h_status h; h_rh := rhdr_set_conn (h_rh h) v; h_hijack := h_hijack h; h_noresp := h_noresp h; h_timeout := h_timeout h; h_skip := h_skip h |}
-  | HijackOp => {| h_status := h_status h; h_rh := h_rh h; h_hijack := true; h_noresp := h_noresp h; h_timeout := h_timeout h; h_skip := h_skip h |}
-  | HijackNoResp b => {| h_status := h_status h; h_rh := h_rh h; h_hijack := h_hijack h; h_noresp := b; h_timeout := h_timeout h; h_skip := h_skip h |}
-  | TimeoutOp => {| h_status := h_status h; h_rh := h_rh h; h_hijack := h_hijack h; h_noresp := h_noresp h; h_timeout := true; h_skip := h_skip h |}
-  | SkipBodyOp => {| h_status := h_status h; h_rh := h_rh h; h_hijack := h_hijack h; h_noresp := h_noresp h; h_timeout := h_timeout h; h_skip := true |}
+  | SetStatus c => {| h_status := c; h_rh := h_rh h; h_hijack := h_hijack h; h_noresp := h_noresp h; h_timeout := h_timeout h; h_skip := h_skip h; h_tclose := h_tclose h |}
+  | SetConnClose => {| h_status := h_status h; h_rh := rhdr_set_close (h_rh h); h_hijack := h_hijack h; h_noresp := h_noresp h; h_timeout := h_timeout h; h_skip := h_skip h; h_tclose := h_tclose h |}
+  | SetHdrConn v => {| h_status := h_status h; h_rh := rhdr_set_conn (h_rh h) v; h_hijack := h_hijack h; h_noresp := h_noresp h; h_timeout := h_timeout h; h_skip := h_skip h; h_tclose := h_tclose h |}
+  | HijackOp => {| h_status := h_status h; h_rh := h_rh h; h_hijack := true; h_noresp := h_noresp h; h_timeout := h_timeout h; h_skip := h_skip h; h_tclose := h_tclose h |}
+  | HijackNoResp b => {| h_status := h_status h; h_rh := h_rh h; h_hijack := h_hijack h; h_noresp := b; h_timeout := h_timeout h; h_skip := h_skip h; h_tclose := h_tclose h |}
+  | TimeoutOp => {| h_status := h_status h; h_rh := h_rh h; h_hijack := h_hijack h; h_noresp := h_noresp h; h_timeout := true; h_skip := h_skip h; h_tclose := h_tclose h |}
+  | SkipBodyOp => {| h_status := h_status h; h_rh := h_rh h; h_hijack := h_hijack h; h_noresp := h_noresp h; h_timeout := h_timeout h; h_skip := true; h_tclose := h_tclose h |}
+  | ResetConnClose => {| h_status := h_status h; h_rh := rhdr_reset_close (h_rh h); h_hijack := h_hijack h; h_noresp := h_noresp h; h_timeout := h_timeout h; h_skip := h_skip h; h_tclose := h_tclose h |}
+  | DelHdrConn => {| h_status := h_status h; h_rh := rhdr_del (h_rh h); h_hijack := h_hijack h; h_noresp := h_noresp h; h_timeout := h_timeout h; h_skip := h_skip h; h_tclose := h_tclose h |}
+  | RespReset c => {| h_status := c; h_rh := rhdr_init; h_hijack := h_hijack h; h_noresp := h_noresp h; h_timeout := h_timeout h; h_skip := false; h_tclose := h_tclose h |}
+  | ReqSetConnClose => h
+  | TimeoutRespClose => {| h_status := h_status h; h_rh := h_rh h; h_hijack := h_hijack h; h_noresp := h_noresp h; h_timeout := true; h_skip := h_skip h; h_tclose := true |}
   | OtherOp => h
   end.
 
@@ -173,7 +183,8 @@ Definition apply_hop (h : hstate) (o : hop) : hstate :=
    — the fresh ctx has no hijack handler and the timeout response has its own (empty) Connection state *)
 Definition after_handler (h : hstate) : hstate :=
   if h_timeout h
-  then {| h_status := StatusRequestTimeout; h_rh := rhdr_init; h_hijack := false; h_noresp := false; h_timeout := true; h_skip := false |}
+  then {| h_status := StatusRequestTimeout; h_rh := (if h_tclose h then rhdr_set_close rhdr_init else rhdr_init);
+          h_hijack := false; h_noresp := false; h_timeout := true; h_skip := false; h_tclose := h_tclose h |}
   else h.
 
 Definition run_handler (ops : list hop) (h0 : hstate) : hstate := after_handler (fold_left apply_hop ops h0).
@@ -298,7 +309,7 @@ Definition release_rule (b : bytes) (fbr : bool) : bool * bool * bytes :=
 
 (* the handler's effect; st0 = status already set by a rejected expectation; cont = continueReadingRequest *)
 Definition hstate0 (st0 : Z) : hstate :=
-  {| h_status := st0; h_rh := rhdr_init; h_hijack := false; h_noresp := false; h_timeout := false; h_skip := false |}.
+  {| h_status := st0; h_rh := rhdr_init; h_hijack := false; h_noresp := false; h_timeout := false; h_skip := false; h_tclose := false |}.
 Definition req_hstate (num : N) (q : req_sum) (cont : bool) (st0 : Z) : hstate :=
   if cont then run_handler (handler E num q) (hstate0 st0) else hstate0 st0.
 
